@@ -63,17 +63,35 @@ type topoState struct {
 	nextID int
 	// reportedDown: addresses the cluster reported DOWN (and made unreachable)
 	down map[string]bool
+	// unreach: addresses that currently refuse connections
+	unreach map[string]bool
 	// invalid / duplicate row injection for the next refreshes
 	invalidFor string
 	dupFor     string
 	compares   int
+	// splitAddrs: nodes have distinct rpc and node-to-node addresses
+	splitAddrs bool
+}
+
+// n2n is the node-to-node address of a host: what system.peers reports as peer, what
+// system.local reports as broadcast_address, and what the ring's address index is keyed by.
+func n2n(h *node.Host) string {
+	if h.Broadcast != "" {
+		return h.Broadcast
+	}
+	return h.Addr
 }
 
 func (st *topoState) newHost() *node.Host {
 	st.nextIP++
 	st.nextID++
+	bc := ""
+	if st.splitAddrs {
+		bc = fmt.Sprintf("10.1.0.%d", st.nextIP)
+	}
 	return &node.Host{
-		Addr: fmt.Sprintf("10.0.0.%d", st.nextIP), Port: 9042,
+		Broadcast: bc,
+		Addr:      fmt.Sprintf("10.0.0.%d", st.nextIP), Port: 9042,
 		HostID: fmt.Sprintf("00000000-0000-4000-8000-%012d", st.nextID),
 		DC:     "dc1", Rack: "r1", Tokens: []string{fmt.Sprintf("%d", int64(st.nextID)*7919-9000000000000000000)},
 		Version: "3.11.4", SchemaVersion: "11111111-1111-4111-8111-111111111111",
@@ -83,6 +101,7 @@ func (st *topoState) newHost() *node.Host {
 
 // unreachable makes an address refuse dials and drops its connections.
 func (st *topoState) unreachable(addr string) {
+	st.unreach[addr] = true
 	st.cl.Net.SetDialMode(addr, simnet.DialRefuse)
 	for _, sc := range st.cl.SConns() {
 		if sc.C.Host == addr && !sc.Dead {
@@ -91,7 +110,14 @@ func (st *topoState) unreachable(addr string) {
 	}
 }
 
-func (st *topoState) reachable(addr string) { st.cl.Net.SetDialMode(addr, simnet.DialAccept) }
+func (st *topoState) reachable(addr string) {
+	delete(st.unreach, addr)
+	st.cl.Net.SetDialMode(addr, simnet.DialAccept)
+}
+
+// eventFor pushes an event about a host; events name the node-to-node address, which is what
+// the session looks hosts up by.
+func (st *topoState) eventFor(typ, change string, h *node.Host) { st.event(typ, change, n2n(h)) }
 
 func (st *topoState) event(typ, change, addr string) {
 	st.cl.PushEvent(&cqlspec.Response{EventType: typ, EventChange: change, EventIP: net.ParseIP(addr).To4(), EventPort: 9042})
@@ -103,8 +129,16 @@ func runTopo(e *Env) {
 	n0 := 1 + tp.Next(4)
 	cl := node.NewCluster(k, n0)
 	InstallHooks(k)
-	st := &topoState{k: k, cl: cl, nextIP: n0, nextID: n0, down: map[string]bool{}}
+	st := &topoState{k: k, cl: cl, nextIP: n0, nextID: n0, down: map[string]bool{}, unreach: map[string]bool{}}
 	e.Note("hosts", n0)
+	if tp.Chance(1, 3) {
+		st.splitAddrs = true
+		for i, h := range cl.Hosts {
+			h.Broadcast = fmt.Sprintf("10.1.0.%d", i+1)
+		}
+		k.Fault("topo.split-rpc-and-broadcast-addresses")
+	}
+	e.Note("splitAddrs", st.splitAddrs)
 
 	cfg := BaseConfig(cl, "10.0.0.1")
 	cfg.ProtoVersion = []int{4, 3}[tp.Next(2)]
@@ -119,13 +153,13 @@ func runTopo(e *Env) {
 	cl.PeersHook = func(h *node.Host) []node.PeerRow {
 		rows := cl.PeersOf(h)
 		for i := range rows {
-			if rows[i].Peer == st.invalidFor {
+			if rows[i].RPC == st.invalidFor {
 				rows[i].NullRack = true
 			}
 		}
 		if st.dupFor != "" {
 			for _, r := range rows {
-				if r.Peer == st.dupFor {
+				if r.RPC == st.dupFor {
 					rows = append(rows, r)
 					break
 				}
@@ -168,7 +202,10 @@ func runTopo(e *Env) {
 			}
 		}
 		pick := func() *node.Host { return others[tp.Next(len(others))] }
-		ws := []int{3, 3, 2, 2, 2, 2, 1, 1, 2, 1, 2}
+		ws := []int{3, 3, 2, 2, 2, 2, 1, 1, 2, 1, 2, 0}
+		if st.splitAddrs && len(others) > 0 {
+			ws[11] = 3
+		}
 		if len(others) == 0 {
 			ws[1], ws[2], ws[3], ws[4], ws[6], ws[7] = 0, 0, 0, 0, 0, 0
 		}
@@ -176,7 +213,7 @@ func runTopo(e *Env) {
 			ws[0] = 0
 		}
 		if e.NoFaults {
-			ws = []int{1, 0, 0, 0, 0, 0, 0, 0, 1, 0, 0}
+			ws = []int{1, 0, 0, 0, 0, 0, 0, 0, 1, 0, 0, 0}
 		}
 		peersBefore := cl.PeerQueries
 		switch tp.Weighted(ws) {
@@ -185,9 +222,9 @@ func runTopo(e *Env) {
 			cl.Hosts = append(cl.Hosts, h)
 			k.Rec("step join %s %s", h.Addr, h.HostID)
 			k.Fault("topo.join")
-			st.event("TOPOLOGY_CHANGE", "NEW_NODE", h.Addr)
+			st.eventFor("TOPOLOGY_CHANGE", "NEW_NODE", h)
 			if tp.Chance(1, 2) {
-				st.event("STATUS_CHANGE", "UP", h.Addr)
+				st.eventFor("STATUS_CHANGE", "UP", h)
 			}
 		case 1: // a node leaves
 			h := pick()
@@ -195,7 +232,7 @@ func runTopo(e *Env) {
 			k.Rec("step leave %s", h.Addr)
 			k.Fault("topo.leave")
 			st.unreachable(h.Addr)
-			st.event("TOPOLOGY_CHANGE", "REMOVED_NODE", h.Addr)
+			st.eventFor("TOPOLOGY_CHANGE", "REMOVED_NODE", h)
 		case 2: // same host id, new address
 			h := pick()
 			old := h.Addr
@@ -205,12 +242,15 @@ func runTopo(e *Env) {
 			k.Rec("step move %s -> %s (same id)", old, h.Addr)
 			k.Fault("topo.address-change")
 			st.unreachable(old)
-			st.event("TOPOLOGY_CHANGE", "NEW_NODE", h.Addr)
+			st.eventFor("TOPOLOGY_CHANGE", "NEW_NODE", h)
 		case 3: // the node on an address is replaced: new host id, same address
 			h := pick()
 			st.nextID++
 			oldID := h.HostID
 			h.HostID = fmt.Sprintf("00000000-0000-4000-8000-%012d", st.nextID)
+			// a new node: whatever was reported about its predecessor does not apply to it
+			delete(st.down, h.Addr)
+			st.reachable(h.Addr)
 			k.Rec("step replace %s id %s -> %s", h.Addr, oldID, h.HostID)
 			k.Fault("topo.new-id-on-old-address")
 			for _, sc := range cl.SConns() {
@@ -218,22 +258,39 @@ func runTopo(e *Env) {
 					cl.CloseConn(sc, false)
 				}
 			}
-			st.event("TOPOLOGY_CHANGE", "NEW_NODE", h.Addr)
-		case 4: // reported DOWN and unreachable, later UP
+			st.eventFor("TOPOLOGY_CHANGE", "NEW_NODE", h)
+		case 4: // reported DOWN (unreachable, or still reachable: gossip says down), later UP;
+			// the report may come as a flapping burst of which only the last event counts
 			h := pick()
+			flap := func(final string) {
+				if tp.Chance(1, 2) {
+					other := map[string]string{"UP": "DOWN", "DOWN": "UP"}[final]
+					for i := 1 + tp.Next(2); i > 0; i-- {
+						st.eventFor("STATUS_CHANGE", other, h)
+						st.eventFor("STATUS_CHANGE", final, h)
+					}
+					k.Fault("topo.status-flapping-burst")
+					return
+				}
+				st.eventFor("STATUS_CHANGE", final, h)
+			}
 			if st.down[h.Addr] {
-				st.down[h.Addr] = false
 				delete(st.down, h.Addr)
 				st.reachable(h.Addr)
 				k.Rec("step up %s", h.Addr)
 				k.Fault("topo.status-up")
-				st.event("STATUS_CHANGE", "UP", h.Addr)
+				flap("UP")
 			} else {
 				st.down[h.Addr] = true
-				k.Rec("step down %s", h.Addr)
-				k.Fault("topo.status-down")
-				st.unreachable(h.Addr)
-				st.event("STATUS_CHANGE", "DOWN", h.Addr)
+				if tp.Chance(1, 2) {
+					k.Rec("step down %s (unreachable)", h.Addr)
+					k.Fault("topo.status-down")
+					st.unreachable(h.Addr)
+				} else {
+					k.Rec("step down %s (reported down, still reachable)", h.Addr)
+					k.Fault("topo.status-down-but-reachable")
+				}
+				flap("DOWN")
 			}
 		case 5: // a burst of events, also for unknown addresses
 			n := 3 + tp.Next(6)
@@ -241,13 +298,15 @@ func runTopo(e *Env) {
 			k.Fault("topo.event-burst")
 			for i := 0; i < n; i++ {
 				addr := fmt.Sprintf("10.0.9.%d", 1+tp.Next(3))
+				var known *node.Host
 				if len(others) > 0 && tp.Chance(1, 2) {
-					addr = pick().Addr
+					known = pick()
+					addr = n2n(known)
 				}
 				typ, ch := "TOPOLOGY_CHANGE", []string{"NEW_NODE", "REMOVED_NODE", "MOVED_NODE"}[tp.Next(3)]
 				if tp.Chance(1, 2) {
 					typ, ch = "STATUS_CHANGE", "UP"
-					if st.down[addr] {
+					if known != nil && st.down[known.Addr] {
 						ch = "DOWN"
 					}
 				}
@@ -260,6 +319,11 @@ func runTopo(e *Env) {
 			k.Probe("burst-checked")
 		case 6: // an invalid peer row for one node (it must be ignored, i.e. look removed)
 			h := pick()
+			if prev := st.invalidFor; prev != "" && prev != h.Addr && st.down[prev] && !st.unreach[prev] {
+				// the node whose row was invalid reappears as a new host and is connected
+				// again (it is reachable): its earlier DOWN report no longer applies
+				delete(st.down, prev)
+			}
 			st.invalidFor = h.Addr
 			k.Rec("step invalid-row %s", h.Addr)
 			k.Fault("topo.invalid-peer-row")
@@ -297,6 +361,19 @@ func runTopo(e *Env) {
 					}
 				}
 			}
+		case 11: // same host id, same rpc address, new node-to-node address
+			h := pick()
+			st.nextIP++
+			old := n2n(h)
+			h.Broadcast = fmt.Sprintf("10.1.0.%d", st.nextIP)
+			if st.down[h.Addr] && !st.unreach[h.Addr] {
+				// the refresh replaces the host and connects to it again, which succeeds:
+				// "not offered until it is connected again" is satisfied
+				delete(st.down, h.Addr)
+			}
+			k.Rec("step node-to-node address of %s: %s -> %s", h.Addr, old, h.Broadcast)
+			k.Fault("topo.node-to-node-address-change")
+			st.eventFor("TOPOLOGY_CHANGE", "NEW_NODE", h)
 		case 10: // peer queries fail for a while, with a topology event in between
 			k.Rec("step peers-failure")
 			k.Fault("topo.peers-query-failure")
@@ -396,9 +473,9 @@ func (st *topoState) compare(when string) {
 	}
 	// by-address index consistent with by-id
 	for id, h := range want {
-		got, ok := st.sess.VerifHostByIP(h.Addr)
+		got, ok := st.sess.VerifHostByIP(n2n(h))
 		if !ok || got == nil {
-			k.Violate("C16", "C16/by-address-index-lost", "%s: node %s (id …%s) is in the ring by id but a lookup by its address finds nothing (address index: %v)", when, h.Addr, id[len(id)-4:], byIP)
+			k.Violate("C16", "C16/by-address-index-lost", "%s: node %s (id …%s) is in the ring by id but a lookup by its node-to-node address %s finds nothing (address index: %v)", when, h.Addr, id[len(id)-4:], n2n(h), byIP)
 			return
 		}
 		if got.HostID() != id {
@@ -408,7 +485,7 @@ func (st *topoState) compare(when string) {
 	}
 	for ip, id := range byIP {
 		h := want[id]
-		if h == nil || h.Addr != ip {
+		if h == nil || n2n(h) != ip {
 			k.Violate("C16", "C16/by-address-index-stale-entry", "%s: the address index maps %s to id …%s, but the cluster has no such node at that address", when, ip, id[len(id)-4:])
 			return
 		}
@@ -464,7 +541,7 @@ func (st *topoState) compare(when string) {
 	for id, h := range want {
 		if st.down[h.Addr] {
 			if offered[id] {
-				k.Violate("C16", "C16/down-node-offered", "%s: node %s was reported DOWN and is unreachable, yet the selection policy offers it as up", when, h.Addr)
+				k.Violate("C16", "C16/down-node-offered", "%s: node %s was last reported DOWN, yet the selection policy offers it as up", when, h.Addr)
 				return
 			}
 			continue
